@@ -188,6 +188,162 @@ theorem shiftMany_ge (ps : List Nat) (n : Nat) : n ≤ shiftMany ps n ∧ shiftM
     · rw [shift_at_or_above p n h] at this ⊢; omega
     · rw [shift_below p n (by omega)] at this ⊢; omega
 
+/-! ## `normalize_line` does not see layout -/
+
+
+
+
+theorem words_trailing_ws (ws : Str) (h : ∀ c ∈ ws, isPySpace c = true) : ∀ (l cur : Str), words (l ++ ws) cur = words l cur := by
+  intro l
+  induction l with
+  | nil =>
+    intro cur
+    simp only [List.nil_append]
+    induction ws generalizing cur with
+    | nil => rfl
+    | cons c r ih =>
+      have hc := h c (by simp)
+      have hr : ∀ c' ∈ r, isPySpace c' = true := fun c' hc' => h c' (by simp [hc'])
+      simp only [words, hc, if_true]
+      by_cases he : cur.isEmpty = true
+      · simp only [he, if_true]
+        rw [ih hr []]
+        simp [words, he]
+      · simp only [he, Bool.false_eq_true, if_false]
+        rw [ih hr []]
+        simp [words, he]
+  | cons c r ih =>
+    intro cur
+    simp only [List.cons_append, words]
+    by_cases hc : isPySpace c = true
+    · simp only [hc, if_true]
+      by_cases he : cur.isEmpty = true
+      · simp only [he, if_true]; exact ih []
+      · simp only [he, Bool.false_eq_true, if_false]; rw [ih []]
+    · simp only [hc, Bool.false_eq_true, if_false]; exact ih _
+
+theorem words_leading_ws (ws : Str) (h : ∀ c ∈ ws, isPySpace c = true) (l : Str) : words (ws ++ l) [] = words l [] := by
+  induction ws with
+  | nil => rfl
+  | cons c r ih =>
+    have hc := h c (by simp)
+    simp only [List.cons_append, words, hc, if_true, List.isEmpty_nil]
+    exact ih (fun c' hc' => h c' (by simp [hc']))
+
+
+
+theorem isPrefixOf_append_ws (ws : Str) (hws : ∀ c ∈ ws, isPySpace c = true) :
+    ∀ (pat l : Str), (∀ c ∈ pat, isPySpace c = false) → pat.isPrefixOf (l ++ ws) = pat.isPrefixOf l := by
+  intro pat
+  induction pat with
+  | nil => intro l _; simp
+  | cons p ps ih =>
+    intro l hp
+    cases l with
+    | nil =>
+      simp only [List.nil_append]
+      cases ws with
+      | nil => rfl
+      | cons w wr =>
+        have h1 := hws w (by simp)
+        have h2 := hp p (by simp)
+        have : (p == w) = false := by
+          cases hh : (p == w) with
+          | false => rfl
+          | true => have : p = w := by simpa using hh
+                    subst this; rw [h1] at h2; cases h2
+        simp [List.isPrefixOf, this]
+    | cons c r =>
+      simp only [List.cons_append, List.isPrefixOf]
+      rw [ih r (fun c' hc' => hp c' (by simp [hc']))]
+
+theorem cutAt_append_ws (pat ws : Str) (hws : ∀ c ∈ ws, isPySpace c = true) (hp : ∀ c ∈ pat, isPySpace c = false) (hne : pat ≠ []) :
+    ∀ l : Str, ∃ ws', (∀ c ∈ ws', isPySpace c = true) ∧ cutAt pat (l ++ ws) = cutAt pat l ++ ws' := by
+  intro l
+  induction l with
+  | nil =>
+    -- cutting an all-space string at a non-space pattern keeps it
+    refine ⟨ws, hws, ?_⟩
+    simp only [List.nil_append, cutAt, List.nil_append]
+    induction ws with
+    | nil => rfl
+    | cons w wr ih =>
+      have hw := hws w (by simp)
+      have hpre : pat.isPrefixOf (w :: wr) = false := by
+        cases pat with
+        | nil => exact absurd rfl hne
+        | cons p ps =>
+          have h2 := hp p (by simp)
+          have : (p == w) = false := by
+            cases hh : (p == w) with
+            | false => rfl
+            | true => have : p = w := by simpa using hh
+                      subst this; rw [hw] at h2; cases h2
+          simp [List.isPrefixOf, this]
+      simp only [cutAt, hpre, Bool.false_eq_true, if_false]
+      rw [ih (fun c hc => hws c (by simp [hc]))]
+  | cons c r ih =>
+    obtain ⟨ws', h1, h2⟩ := ih
+    simp only [List.cons_append, cutAt]
+    have := isPrefixOf_append_ws ws hws pat (c :: r) hp
+    simp only [List.cons_append] at this
+    rw [this]
+    by_cases hpre : pat.isPrefixOf (c :: r) = true
+    · exact ⟨[], by simp, by simp [hpre]⟩
+    · refine ⟨ws', h1, ?_⟩
+      simp only [hpre, Bool.false_eq_true, if_false, h2, List.cons_append]
+
+theorem cutAt_leading_ws (pat ws : Str) (hws : ∀ c ∈ ws, isPySpace c = true) (hp : ∀ c ∈ pat, isPySpace c = false) (hne : pat ≠ []) (l : Str) :
+    cutAt pat (ws ++ l) = ws ++ cutAt pat l := by
+  induction ws with
+  | nil => rfl
+  | cons w wr ih =>
+    have hw := hws w (by simp)
+    have hpre : pat.isPrefixOf (w :: (wr ++ l)) = false := by
+      cases pat with
+      | nil => exact absurd rfl hne
+      | cons p ps =>
+        have h2 := hp p (by simp)
+        have : (p == w) = false := by
+          cases hh : (p == w) with
+          | false => rfl
+          | true => have : p = w := by simpa using hh
+                    subst this; rw [hw] at h2; cases h2
+        simp [List.isPrefixOf, this]
+    simp only [List.cons_append, cutAt, hpre, Bool.false_eq_true, if_false]
+    rw [ih (fun c hc => hws c (by simp [hc]))]
+
+/-- **`normalize_line` is blind to trailing white space** (also a CR before the line feed) -/
+theorem normalize_trailing_ws (l ws : Str) (hws : ∀ c ∈ ws, isPySpace c = true) : normalizeLine (l ++ ws) = normalizeLine l := by
+  unfold normalizeLine stripComments
+  obtain ⟨w1, h1, e1⟩ := cutAt_append_ws ['#'] ws hws (by decide) (by simp) l
+  rw [e1]
+  obtain ⟨w2, h2, e2⟩ := cutAt_append_ws ['/', '/'] w1 h1 (by decide) (by simp) (cutAt ['#'] l)
+  rw [e2, words_trailing_ws w2 h2]
+
+/-- **… and to indentation** -/
+theorem normalize_leading_ws (ws l : Str) (hws : ∀ c ∈ ws, isPySpace c = true) : normalizeLine (ws ++ l) = normalizeLine l := by
+  unfold normalizeLine stripComments
+  rw [cutAt_leading_ws ['#'] ws hws (by decide) (by simp), cutAt_leading_ws ['/', '/'] ws hws (by decide) (by simp), words_leading_ws ws hws]
+
+/-- so a blank line, and a line that holds only a comment, are noise for DRY's tokenizer wherever they are indented -/
+theorem blank_is_noise (ws : Str) (hws : ∀ c ∈ ws, isPySpace c = true) : isNoise ws = true := by
+  have := normalize_leading_ws ws [] hws
+  simp only [List.append_nil] at this
+  unfold isNoise
+  rw [this]
+  rfl
+
+theorem comment_is_noise (ws rest : Str) (hws : ∀ c ∈ ws, isPySpace c = true) : isNoise (ws ++ '#' :: rest) = true ∧ isNoise (ws ++ '/' :: '/' :: rest) = true := by
+  constructor
+  · simp only [isNoise, normalize_leading_ws ws _ hws]
+    simp [normalizeLine, stripComments, cutAt, List.isPrefixOf, words, joinSp]
+  · simp only [isNoise, normalize_leading_ws ws _ hws]
+    have h1 : cutAt ['#'] ('/' :: '/' :: rest) = '/' :: '/' :: cutAt ['#'] rest := by
+      simp [cutAt, List.isPrefixOf]
+    simp [normalizeLine, stripComments, h1, cutAt, List.isPrefixOf, words, joinSp]
+
+
 /-! ## Non-vacuity (tests, labelled as such) -/
 
 example : normalizeLine "    total  =  a +\tb   # sum ".toList = "total = a + b".toList ∧ isNoise "   // note".toList = true ∧ isNoise "\t \r".toList = true ∧
